@@ -17,7 +17,7 @@ sys.path.insert(0, os.path.dirname(os.path.abspath(__file__)))
 import dlib  # noqa: E402
 import c05_driver as L  # noqa: E402
 
-from traits.api import Any, CInt, Dict, HasTraits, Instance, Int, List, Set, Str, TraitError  # noqa: E402
+from traits.api import Any, CInt, Dict, HasTraits, Instance, Int, List, Set, Str, TraitError, TraitType  # noqa: E402
 from traits.trait_list_object import TraitList, TraitListObject  # noqa: E402
 from traits.trait_set_object import TraitSet, TraitSetObject  # noqa: E402
 from traits.trait_dict_object import TraitDict, TraitDictObject  # noqa: E402
@@ -26,7 +26,30 @@ val, atom, raw_init = L.val, L.atom, L.raw_init
 Cell = L.Cell          # Instance("Cell") forward references are resolved in this module's namespace
 
 
+class IntIVF(TraitType):
+    """VInt through the documented simplified hook is_valid_for only (no validate, no fast_validate)"""
+
+    def is_valid_for(self, value):
+        return type(value) is int and 0 <= value < 100
+
+
+class IncVF(TraitType):
+    """VInc through the documented simplified hook value_for only"""
+
+    def value_for(self, value):
+        if type(value) is int and 0 <= value < 90:
+            return value + 1
+        raise TraitError("not in 0..89")
+
+
+_HOOKS = [False]       # set per case: Int-like / Inc inner traits are the hook-only TraitTypes above
+
+
 def inner_trait(vk):
+    if _HOOKS[0] and vk == "VInt":
+        return IntIVF
+    if _HOOKS[0] and vk == "VInc":
+        return IncVF
     return Instance("Cell") if vk == "VInst" else L.INNER[vk]
 
 
@@ -61,15 +84,17 @@ def Dict(*a, **k):  # noqa: F811
 
 
 def cls_for(key, make):
-    key = (key, _FALSY[0], _ITEMS[0])
+    key = (key, _FALSY[0], _ITEMS[0], _HOOKS[0])
     if "VInst" in repr(key):
         # a forward reference Instance("Cell") is resolved (and the trait fixed up) at the first validation: every case
         # gets its own class, so that its first assignment is that first validation
         key = (key, len(_classes))
     if key not in _classes:
-        members = {"x": make()}
+        name = "H%d" % len(_classes)
+        members = {"x": make(), "__module__": "__main__", "__qualname__": name}
         members.update(L.falsy_members(_FALSY[0]))
-        _classes[key] = type("H%d" % len(_classes), (HasTraits,), members)
+        _classes[key] = type(name, (HasTraits,), members)
+        globals()[name] = _classes[key]        # importable by name: instances can be pickled
     return _classes[key]
 
 
@@ -132,6 +157,16 @@ def exn(e):
 def enc_inner(x):
     """contents of an inner list; something that is not a list at all is shown as [999] (never valid)"""
     return [atom(v) for v in x] if isinstance(x, list) else [999]
+
+
+def repickled(owner):
+    """the owner after a pickle round trip (HasTraits.__setstate__ re-assigns every trait value: validated again, wrapped
+    into fresh container objects connected to the new owner)"""
+    return pickle.loads(pickle.dumps(owner))
+
+
+def is_repickle(op):
+    return op[0] in ("Assign", "NAssign") and op[-1] == "repickle"
 
 
 def loose_like(owner, how, raw_init_value, fill):
@@ -204,7 +239,10 @@ def run_list(case):
         rec.reset()
         out, ret = "Ok", None
         try:
-            if op[0] == "Assign":
+            if is_repickle(op):
+                owner = repickled(owner)
+                rec = Rec(owner)
+            elif op[0] == "Assign":
                 items = [val(a) for a in op[2]]
                 how = op[3] if len(op) > 3 else "plain"
                 if how != "plain":
@@ -239,7 +277,10 @@ def run_set(case):
         out, ret = "Ok", None
         k = op[0]
         try:
-            if k == "Assign":
+            if is_repickle(op):
+                owner = repickled(owner)
+                rec = Rec(owner)
+            elif k == "Assign":
                 items = [val(a) for a in op[2]]
                 how = op[3] if len(op) > 3 else "plain"
                 if how != "plain":
@@ -309,7 +350,10 @@ def run_dict(case):
         out = "Ok"
         k = op[0]
         try:
-            if k == "Assign":
+            if is_repickle(op):
+                owner = repickled(owner)
+                rec = Rec(owner)
+            elif k == "Assign":
                 how = op[3] if len(op) > 3 else "plain"
                 if how != "plain":
                     ps = dict(pairs(op[2]))
@@ -396,7 +440,10 @@ def run_nested(case):
         out = "Ok"
         k = op[0]
         try:
-            if k == "NAppend":
+            if is_repickle(op):
+                owner = repickled(owner)
+                rec = Rec(owner)
+            elif k == "NAppend":
                 tl.append(raw(op[1], src))
             elif k == "NExtend":
                 tl.extend([raw(r, src) for r in op[1]])
@@ -457,7 +504,10 @@ def run_ndict(case):
         out = "Ok"
         k = op[0]
         try:
-            if k == "SetItem":
+            if is_repickle(op):
+                owner = repickled(owner)
+                rec = Rec(owner)
+            elif k == "SetItem":
                 td[val(op[1])] = raw(op[2], src)
             elif k == "Update":
                 td.update(dict((val(a), raw(r, src)) for a, r in op[1]))
@@ -594,7 +644,10 @@ def run_deep(case):
         rec.reset()
         out = "Ok"
         try:
-            if op[0] == "Assign":
+            if is_repickle(op):
+                owner = repickled(owner)
+                rec = Rec(owner)
+            elif op[0] == "Assign":
                 owner.x = deep_val(op[1])
             else:
                 node = owner.x
@@ -702,6 +755,7 @@ def main():
         L.reset_pool()
         _FALSY[0] = c.get("falsy")
         _ITEMS[0] = not c.get("no_items")
+        _HOOKS[0] = bool(c.get("hooks"))
         return fn[c["kind"]](c)
     if isinstance(p, list):              # vlib.hist passes the bare list of cases; each names its kind
         dlib.dump([one(c) for c in p])
